@@ -248,11 +248,11 @@ def decode_quoted(raw: bytes) -> bytes:
         else:
             out.append(c)
             i += 1
-    return bytes(out).replace(b"\r\n", b"\n")
+    return bytes(out)
 
 
 def decode_multiline(raw: bytes) -> bytes:
-    lines = raw.replace(b"\r\n", b"\n").split(b"\n")
+    lines = raw.split(b"\n")  # a CR before the LF stays part of the content line
     body = lines[1:-1]  # drop the "text:" line and the final "."
     out = []
     for ln in body:
